@@ -281,6 +281,11 @@ def run(chk):
         n = rng.randint(2, 9) if it_t >= 5 else rng.randint(4, 8)
         al = [gen.mutate(rng, rng.choice(["CAVR", "CAAAA"]), "ACDV", rng.randint(0, 2)) or "C" for _ in range(n)]
         be = [gen.mutate(rng, rng.choice(["CASSL", "CQQQQQ"]), "ACSQL", rng.randint(0, 2)) or "C" for _ in range(n)]
+        if it_t in (2, 3):
+            # every run (paired forms): chains whose residues "slide" across the pair - the paired distance is the SUM of the chain
+            # distances, not the edit distance of anything joined
+            al = ["CAVRDGNT", "CAVRD", "CAVRDGNT", "CAVRD", "CAAAA"][:n] + al[5:]
+            be = ["CASSLGF", "GNTCASSLGF", "CASSLGF", "CASSLGF", "CQQQQQ"][:n] + be[5:]
         form = rng.choice(["alpha-table", "beta-table", "paired-table", "tuple", "tuple-of-series", "tuple-of-series-other-labels"])
         if it_t < 6:
             form = ["alpha-table", "beta-table", "paired-table", "tuple", "tuple-of-series", "tuple-of-series-other-labels"][it_t]    # every form in every run
